@@ -113,6 +113,10 @@ COMPOSITE_VARIANTS = dict(name='composite_width_variants', kind='agreement', tar
                      claim='every typed protocol item of the sample set (delivery states and outcomes, open / begin / flow / transfer / disposition / detach / end / close, header, properties, source, target, body sections; described-list bodies on both sides of the list8 / list32 boundary, trailing fields elided) decodes to the SAME value from every valid width of its outer list (list8 re-written as list32 and back, list0 as an empty list8 / list32), from a slice and from a stream, and the two values placed right behind it are found where they are (exactly the encoding is consumed)',
                      bound='about 160 sample values (message-id / correlation-id in every variant, addresses, symbols, custom and standard error conditions, contents on both sides of the 255-octet boundary) x up to 3 width variants x 2 readers (derive-macro output and the serde visitors are outside the Verus subset; DescribedAccess::consume_list_header / consume_map_header are under contract in unit READERS)')
 
+DERIVE_LAYOUT = dict(name='derive_macro_composite_layout', kind='agreement', target='serde_amqp_derive::{SerializeComposite,DeserializeComposite}', args=['C05.derive-layout'],
+                     claim='for local composites declared with the derive macros (tuple and named form, every mix of optional and mandatory fields): the encoding is the descriptor followed by ONE list holding the fields in declaration order, a null for each absent field that a present one follows, trailing absent fields elided, nothing repeated; and it decodes back to the value. The code a proc-macro generates is outside the reach of a contract: bounded stand-in',
+                     bound='5 composite shapes x all combinations of None / Some over 3 booleans, 7 optional and 6 mandatory int values (about 1200 values)')
+
 RT_VALUE_CLASSES = dict(name='rt_value_classes', kind='agreement', target='serde_amqp::{to_vec,from_slice}::<Value>', args=['C03.value-rt'],
                  claim='from_slice(to_vec(v)) == v for untyped values: every leaf class (all primitive types, strings/symbols/binaries on both sides of the 255/256 width boundary, non-ASCII text), every compound wrapper of a leaf (array of 1/2/3/300, list, map as key and as value, described by code and by name) and every wrapper of those (nesting depth 2), outside the two input classes of findings D18 / D19',
                  bound='3011 values: 37 leaves x 9 wrappers x 9 wrappers, fixed sample data per leaf class')
@@ -131,7 +135,7 @@ PROPS = {
             'DeliveryFut::poll and the SendResult conversions are under contract in unit DELIVFUT (Pin erased, the oneshot as a stand-in); interleaving of dispositions with further sends is not decided',
             'that UnsettledMessage::settle_with_state is actually invoked on the entry removed by LinkRelay::on_incoming_disposition is visible in the extracted text but is not an obligation: a by-value call leaves no ghost trace; what IS proved: the entry removed is the one under the disposition\'s tag, and settle_with_state resolves its own channel with exactly the state given']),
     'C03': dict(
-        probes=[COMPOSITE_VARIANTS,
+        probes=[COMPOSITE_VARIANTS, DERIVE_LAYOUT,
             RT_VALUE_CLASSES,
             dict(name='rt_array_of_described', kind='agreement', target='serde_amqp::{to_vec,from_slice}::<Value>', args=['C03.array-of-described'],
                  claim='the same round trip for the values in which an array of described values occurs', bound='296 values (as above, restricted to that class)'),
@@ -147,7 +151,7 @@ PROPS = {
             'compound header writers: the call-site fact count <= byte length (every element occupies at least one byte in this implementation) is assumed; the serde SerializeSeq / Tuple / Map / Struct / TupleStruct impls that call them are under contract in unit SERENTRY (count = elements serialized, body = their octets, position = the enclosing one); the size twin (size_ser.rs compound serializers and entry points) is under contract in unit SIZEENTRY: it adds up the sizes of exactly the elements / fields ser.rs writes, under the same modes except in three arms (DESIGN section 8), which the clauses name',
             'messages: Message::serialize is proved to hand the serializer exactly the sections that are set, in the AMQP order, and the Message visitor (visit_seq, FieldVisitor::visit_u64) to rebuild the same sections from them (lemma_message_round_trip, all 64 presence combinations, body descriptors 0x75-0x77); the encoding of each section value (derive output), the body types (incl. batches of Data/AmqpSequence) are not under contract; the symbolic descriptors (visit_str) of the dispatchers are (unit DESCDISPATCH)']),
     'C05': dict(
-        probes=[COMPOSITE_VARIANTS, RT_VALUE_CLASSES,
+        probes=[COMPOSITE_VARIANTS, DERIVE_LAYOUT, RT_VALUE_CLASSES,
                 dict(name='spec_defaults_of_elided_fields', kind='agreement', target='serde_amqp::from_slice~fe2o3_amqp_types-composites', args=['C05.spec-defaults'],
                      claim='a composite whose defaulted fields are elided (list0, short list) or sent as null decodes to the defaults of the SPECIFICATION, written out in the probe (header: durable false, priority 4, first-acquirer false, delivery-count 0; open: max-frame-size 4294967295, channel-max 65535; begin: handle-max 4294967295; attach: snd-settle-mode mixed, rcv-settle-mode first, incomplete-unsettled false; flow: drain / echo false; transfer: more / aborted / batchable / resume false; disposition: settled / batchable false; detach: closed false; source / target: durable none, expiry-policy session-end, timeout 0, dynamic false)',
                      bound='12 reference encodings written by hand from the specification, 36 field checks (derive-macro output is outside the Verus subset)')],
